@@ -164,3 +164,13 @@ Proof. exact batches_negative. Qed.
 Print Assumptions C17_batches_panics.
 Example C17_batches_panics_ex : batches (mkView 2 7 9) (-1) = Panic PDocN.
 Proof. reflexivity. Qed.
+
+(* Outside the documented domain (recorded, not demanded): a negative count for Head/Tail and a
+   negative index for Stripe reach the runtime's own bounds checks. *)
+Theorem C17_negative_arguments : forall (T : Type) (v : view) (n : Z) (x : list T) (r : list (list T)),
+  0 <= vlen v -> n < 0 ->
+  head v n = Panic PRtSlice /\ tail v n = Panic PRtSlice /\ stripe (x :: r) n = Panic PRtIndex.
+Proof. exact @negative_arguments. Qed.
+Print Assumptions C17_negative_arguments.
+Example C17_negative_arguments_ex : head (mkView 0 3 3) (-1) = Panic PRtSlice /\ stripe [[1; 2]] (-1) = Panic PRtIndex.
+Proof. split; reflexivity. Qed.
